@@ -289,6 +289,22 @@ def check_tables(ctx):
             ctx.undecided(rule, where, nm, 'operator table not found / not a dict of lists of operator functions', 0, clause='a')
             return
         tabs[nm] = t
+    # Round 8: an entry of the tables is Python's own operator function (operator.<op>, len): a
+    # function of the module under the operator's name computes something else for some operand
+    local_defs = {n_.name: n_ for n_ in tree.body if isinstance(n_, ast.FunctionDef)}
+    for n_ in tree.body:
+        if isinstance(n_, ast.Assign) and isinstance(n_.targets[0], ast.Name) and n_.targets[0].id in tabs and isinstance(n_.value, ast.Dict):
+            for v_ in n_.value.values:
+                for e_ in (v_.elts if isinstance(v_, ast.List) else []):
+                    if isinstance(e_, ast.Name) and e_.id in local_defs:
+                        d_ = local_defs[e_.id]
+                        body_ = [b for b in d_.body if not (isinstance(b, ast.Expr) and isinstance(b.value, ast.Constant))]
+                        plain = len(body_) == 1 and isinstance(body_[0], ast.Return) and isinstance(body_[0].value, ast.Call) and canon(body_[0].value.func) == 'operator.%s' % e_.id.rstrip('_') \
+                            and [canon(a_) for a_ in body_[0].value.args] == [a_.arg for a_ in d_.args.args]
+                        if plain:
+                            ctx.holds(rule, where, '%s: %s' % (n_.targets[0].id, e_.id), 'a plain wrapper of operator.%s' % e_.id, e_.lineno, clause='a')
+                        else:
+                            ctx.violation(rule, where, '%s: %s' % (n_.targets[0].id, e_.id), 'the deferred operator is computed by deferred.%s, a function of the module, not by Python\'s operator.%s: for some operand (a bool, a subclass...) the deferred expression has another value than the same expression written eagerly' % (e_.id, e_.id.rstrip('_')), e_.lineno, clause='a', witness=True)
     fi = None
     # the function whose own body holds the loops over the three tables (wherever a helper
     # expansion may have copied them, the loops are statements of its body)
@@ -1036,6 +1052,37 @@ def check_selectors(ctx):
             ctx.violation(rule, f2, 'chooses -> %s' % t, 'expected options[index]', f2.node.lineno, clause='f')
 
 
+def check_prototype_named_before_conditions(ctx, rule='R9-postfix'):
+    """Round 8.  compile_expr tells a named field (looked up in the packet) from a Field used as a
+    plain value by whether it has a field_name at compile time.  The element of a repeated /
+    optional field gets its name in the _compile of the structural field: that must happen before
+    the count / until / when expressions are compiled, or an expression written over the element
+    itself (byte.repeated(until=byte == 0)) is compiled as a constant Field object"""
+    repo = ctx.repo
+    for cname in ('Sequence', 'Optional'):
+        ci = repo.cls(cname)
+        comp = ci.methods.get('_compile')
+        if comp is None:
+            continue
+        for p in repo.walker(max_paths=ctx.max_paths).paths(comp.node, cls=ci):
+            if p.raises():
+                continue
+            effs = list(p.effects)
+            named = [i for i, e in enumerate(effs) if e.kind == 'store_attr' and canon(e.obj) == 'self.prototype_field' and e.name == 'field_name']
+            comps = [i for i, e in enumerate(effs) if e.kind == 'call' and (call_name(e.call) or '').split('.')[-1] in
+                     ('normalize_raw_condition_into_a_callable', 'normalize_count_condition_into_a_callable', 'compile_expr_into_callable', 'compile_expr')]
+            if not comps:
+                continue
+            st = '%s._compile: element named at step %s, conditions compiled at steps %s' % (cname, named[:1] or None, comps)
+            if named and named[0] < comps[0]:
+                ctx.holds(rule, comp, st, 'the element has its name when the expressions over it are compiled', comp.node.lineno, clause='c')
+            elif named:
+                ctx.violation(rule, comp, st, 'the count / until / when expressions are compiled before the element field is named: an expression over the element itself is compiled as a constant Field object instead of a lookup of the last parsed element', effs[comps[0]].lineno, clause='c', witness=True)
+            else:
+                ctx.undecided(rule, comp, st, 'cannot see where the element field gets its name', comp.node.lineno, clause='c')
+            break
+
+
 def check(ctx):
     repo = ctx.repo
     if 'deferred' not in repo.modules:
@@ -1047,6 +1094,7 @@ def check(ctx):
     check_compile_expr(ctx, nts)
     check_exec(ctx)
     check_selectors(ctx)
+    check_prototype_named_before_conditions(ctx)
     # where expressions are used (count / until / when of repeated and optional fields): the
     # consumer gets the callable compile_expr_into_callable made, not a wrapper that coerces
     from .c08 import check_normalisers
